@@ -8,7 +8,7 @@ budget = sys.argv[3] if len(sys.argv) > 3 else '20'
 for d in sorted(glob.glob(os.path.join(src, 'm*'))):
     if not os.path.isdir(d):
         continue
-    name = '%s-%s' % (ID, os.path.basename(d))
+    name = '%s-%s%s' % (ID, os.environ.get('MUT_PREFIX', ''), os.path.basename(d))
     dst = os.path.join('/verif/seeded', name)
     adapted = os.path.join(dst, 'patch.diff')
     os.makedirs(dst, exist_ok=True)
